@@ -126,3 +126,62 @@ Theorem c02_kdb_bad_level :
   forallb gdesc_ok (gs1 ++ [g]) = true -> N.of_nat (length gs1) < total ->
   parse_groups total (concat (map group_enc (gs1 ++ g :: gs2)) ++ rest) = Err KEInvalidLevel.
 Proof. exact parse_groups_bad_level. Qed.
+
+(* ---------------- END TO END (format/KdbOpen.v, Kdbx3Open.v, Kdbx3Time.v) ----------------
+   KDB: the whole reader (fixed header, key, cipher flag, the library's decryption with or without
+   the padding left in place, the reader's own padding step, content hash, records) applied to what a
+   conforming writer lays out returns the version, cipher, rounds and the tree characterised as in
+   c02_kdb_content.  KDBX 3.1: the whole reader (container, XML text layer as a parameter, object
+   mapping, inner stream keyed by the header's protected stream key) applied to a conforming file
+   whose document carries ISO-8601 time stamps returns configuration and content. *)
+From KP Require Import SaveOpen KdbOpen Kdbx3Time Kdbx3Open XmlTypes XmlSpec.
+Theorem c02_kdb_open_roundtrip :
+  forall (sha256 : bytes -> bytes) (kdf : kdfcfg -> bytes -> bytes -> Kdbx4.res bytes)
+         (outer_enc outer_dec : ocipher -> bytes -> bytes -> bytes -> Kdbx4.res bytes),
+  (forall m, length (sha256 m) = 32%nat) ->
+  forall (c : ocipher) (sv : N) (ms iv ts : list N) (rounds : N) (gs : list gdesc) (es : list edesc)
+         (els : list bytes) (file : bytes),
+  (forall k i x ct, outer_enc c k i x = Ok ct -> exists pad, outer_dec c k i ct = Ok (x ++ pad) /\ lib_tail pad) ->
+  c = OAes256 \/ c = OTwofish ->
+  length ms = 16%nat -> length iv = 16%nat -> length ts = 32%nat -> rounds < 2 ^ 32 ->
+  gs <> [] -> N.of_nat (length gs) < 2 ^ 32 -> N.of_nat (length es) < 2 ^ 32 ->
+  valid_levels gs = true -> forallb gdesc_ok gs = true -> forallb edesc_ok es = true ->
+  NoDup (map gd_gid gs) -> (forall e, In e es -> In (ed_gid e) (map gd_gid gs)) ->
+  kdb_file_enc sha256 kdf outer_enc c sv ms iv ts rounds gs es els = Ok file ->
+  exists root',
+    kdb_open sha256 kdf outer_dec file (Ok els) = Ok (KDB (sv mod 65536), c, rounds, root') /\
+    preorder 0 root' = map lvname gs /\ groups_only (strip_entries root') = true /\
+    map tag root' = map (fun _ => None) (strip_entries root') /\
+    forall i g, nth_error gs i = Some g ->
+      exists p ch ch',
+        nth_error (forest_paths (strip_entries root')) i = Some p /\
+        name_at p (strip_entries root') = Some (gd_name g) /\ length p = S (gd_level g) /\
+        children_at p (strip_entries root') = Some ch /\ children_at p root' = Some ch' /\
+        map tag ch' = map (fun _ => None) ch ++
+          map (fun e => Some (entry_fields e)) (filter (fun e => N.eqb (ed_gid e) (gd_gid g)) es).
+Proof. exact kdb_open_roundtrip. Qed.
+
+Theorem c02_kdbx3_open_roundtrip :
+  forall (sha256 : bytes -> bytes) (kdf : kdfcfg -> bytes -> bytes -> Kdbx4.res bytes)
+         (outer_enc outer_dec : ocipher -> bytes -> bytes -> bytes -> Kdbx4.res bytes)
+         (compress decompress : compression -> bytes -> Kdbx4.res bytes)
+         (gzip : bytes -> bytes) (gunzip : bytes -> option bytes)
+         (render : list ev -> bytes) (lex : bytes -> list ev) (keystream : icipher -> bytes -> bytes),
+  (forall x, length (sha256 x) = 32%nat) ->
+  (forall c k iv x e, outer_enc c k iv x = Ok e -> exists tail, outer_dec c k iv e = Ok (x ++ tail)) ->
+  (forall z p c, compress z p = Ok c -> decompress z c = Ok p) ->
+  (forall c k, bytes_ok (keystream c k) = true) ->
+  forall (c : content) (h : header3) (minor : N) (fields : list (N * bytes)) (end_buf : bytes)
+         (els : list bytes) (z : bytes) (blocks : list bytes) (file : bytes),
+  minor < 2 ^ 16 -> header3_ok h -> N.of_nat (length end_buf) < 2 ^ 16 ->
+  Forall (fun f => fst f = 1 -> short16 (snd f)) fields ->
+  Permutation (filter non_comment fields) (canonical_fields h) ->
+  length (h3_start h) = 32%nat ->
+  wf_content gzip gunzip c = true ->
+  lex (render (document3 gzip keystream c h)) = document3 gzip keystream c h ->
+  compress (h3_compression h) (render (document3 gzip keystream c h)) = Ok z ->
+  concat blocks = z -> Forall block_ok blocks ->
+  frame3 sha256 kdf outer_enc minor fields end_buf h els blocks = Ok file ->
+  open3_model sha256 kdf outer_dec decompress gunzip lex keystream file (Ok els)
+  = Ok (mkDb (config3 minor h) [] c).
+Proof. exact open3_roundtrip. Qed.
